@@ -62,7 +62,9 @@ class Builder:
             d["k"] = 1
             return d
         if c is fx.MyStr:
-            return c("s%d" % i)
+            # equal to (and hashing like) the plain strings used as dict keys elsewhere in the same process: whatever is
+            # remembered per string must not be applied to an instance of a str subclass
+            return c("abcdefghijklm"[i % 13])
         if c is fx.MyInt:
             return c(i)
         return c()
